@@ -8,6 +8,7 @@ from ..aid.sixing import *
 from .globaling import *
 
 from ..aio.udp import PeerUdp
+from ..aio.serial import ConsoleNb
 from . import excepting
 from . import tasking
 
@@ -49,13 +50,13 @@ class Monitor(tasking.Tasker):
         super(Monitor,self).__init__(**kw) #status = STOPPED  make runner advance so can send cmd
 
 
-        self.console = aiding.ConsoleNb()  #create console object for Non Blocking IO
+        self.console = ConsoleNb()  #create console object for Non Blocking IO
 
         #create socket server
         self.host = host
         self.port = port
         self.ha = (self.host, self.port)
-        self.server = PeerUdp(host = self.host,port = self.port, path = '')
+        self.server = PeerUdp(host = self.host, port = self.port)
 
         self.dha = (dhost, dport) #set up destination address
 
